@@ -33,6 +33,7 @@ pub fn plan() -> Plan {
         s5: None,
         enumerate_session_end: None,
         enumerate_symbols: None,
+        relabel: None,
     }
 }
 
